@@ -351,6 +351,45 @@ def apply_check(check, cfg, r):
     return keyword_oracle(check[1], check[2], check[3], check[4], cfg, r)
 
 
+def shared_cache_scopes(ctx, cases):
+    """`A context scope restricts matching to the permitted kind of snippet` also when one `cache` dict is shared by
+    configurations that differ in their scope: first a call under scope s1 fills the cache, then the case's own
+    configuration (scope s2) uses it; the case's check must still hold."""
+    from emmet import expand
+    sample = [(cfg, s, check, fkey) for cfg, s, check, tag, fkey in cases
+              if cfg.syntax == 'css' and not cfg.snippets and not cfg.options and s in SHARED_CACHE_KEYS and check and check[0] == 'key']
+    n = 0
+    for cfg, s, check, fkey in sample:
+        for s1 in [None] + list(SCOPES):
+            if s1 == cfg.context:
+                continue
+            cache = {}
+            first = Cfg(syntax='css', context=s1, tabstop=cfg.tabstop).impl_config()
+            first['cache'] = cache
+            second = cfg.impl_config()
+            second['cache'] = cache
+            try:
+                expand('m10' if s1 != '@@section' else '@m', first)
+            except Exception:
+                pass
+            try:
+                r = ('ok', expand(s, second))
+            except Exception as e:
+                r = su.classify_exc(e, len(s))
+            n += 1
+            ctx.count_eval()
+            ctx.cover('c06:shared-cache-across-scopes')
+            bad = apply_check(check, cfg, r)
+            if bad and not (fkey and ctx.match_known(fkey)):
+                ctx.property_failure('c06:shared-cache:%s:%s:%s' % (s1, cfg.context, s),
+                                     'stylesheet expand(%r) under scope %r through a cache dict first used under scope %r: %s' % (s, cfg.context, s1, bad),
+                                     {'input': s, 'config': cfg.to_json(), 'shared_cache_first_scope': s1, 'check': list(check[:1]), 'impl': repr(r)[:300], 'why': bad})
+    ctx.cov['shared_cache_scope_sequences'] = n
+
+
+SHARED_CACHE_KEYS = ('m', 'p', 'bd', 'pos', '@m', '@f', '@kf', 'c', 'fz', 'd')
+
+
 def run(ctx):
     ok = ctx.build(['props/C06.vo', 'run/StyleShow.vo'])
     if ok:
@@ -381,6 +420,7 @@ def run(ctx):
                 ctx.property_failure(key, 'stylesheet expand(%r) under %s: %s' % (s, cfg.to_json(), bad),
                                      {'input': s, 'config': cfg.to_json(), 'check': list(check[:1]) + [c for c in check[1:] if not isinstance(c, dict)],  # noqa
                                       'impl': repr(r2)[:300], 'why': bad})
+    shared_cache_scopes(ctx, cases)
     for (cfg, s, check, tag, fkey), r in list(zip(cases, impl))[-5:]:
         ctx.sample({'input': s, 'config': cfg.to_json(), 'impl': repr(r)[:160]})
     runner = su.ImplRunner()
